@@ -62,6 +62,20 @@ type BatchFinish interface {
 
 var registry = map[string]Prop{}
 
+// Aux programs are small helper processes a property needs (scenario children, verifiers).
+var auxRegistry = map[string]func(args []string) int{}
+
+func RegisterAux(name string, f func(args []string) int) { auxRegistry[name] = f }
+
+func RunAux(name string, args []string) int {
+	f := auxRegistry[name]
+	if f == nil {
+		fmt.Fprintf(os.Stderr, "unknown aux program %q\n", name)
+		return 2
+	}
+	return f(args)
+}
+
 func Register(p Prop) { registry[p.ID()] = p }
 func Lookup(id string) Prop {
 	return registry[id]
